@@ -19,6 +19,13 @@ func maybeCLI(in *lcw.Input, sub uint64) {
 	if in.CLI > 0 && in.Conf == "" && r.Chance(1, 2) {
 		WithConfigFile(in, r)
 	}
+	if in.CLI > 0 { // the state report of a process-level history is the table `layercake list` prints
+		for i := range in.Steps {
+			if in.Steps[i].Cmd.Kind == "probe" && len(in.Steps[i].Users) == 0 && r.Chance(2, 3) {
+				in.Steps[i].Cmd.Kind = "list"
+			}
+		}
+	}
 }
 
 // WithConfigFile puts a configuration file (sometimes a chain of two) into the world which, by
